@@ -178,11 +178,11 @@ def gen_simple_case(rng, tier):
     gs = gen_simple_grid(rng, tier)
     axn = list(gs["axes"])
     r = rng.random()
-    if r < 0.42:
+    if r < 0.40:
         opname = rng.choice(STENCIL_OPS)
-    elif r < 0.55:
+    elif r < 0.52:
         opname = "cumsum"
-    elif r < 0.77:
+    elif r < 0.72:
         opname = rng.choice(METRIC_OPS)
     else:
         opname = "ufunc"
@@ -264,15 +264,17 @@ def gen_simple_case(rng, tier):
 def gen_ufunc_case(rng, gs, spec, tier):
     axn = list(gs["axes"])
     nin = 1 if rng.random() < 0.75 else 2
-    k = 1 if (len(axn) == 1 or rng.random() < 0.65) else 2
+    k = 1 if (len(axn) == 1 or rng.random() < 0.5) else 2
     uaxes = rng.sample(axn, k)
     sig_in, sig_out, bw, weights = [], [], {}, []
     dummy = {a: f"A{i}" for i, a in enumerate(uaxes)}
     frompos, topos = {}, {}
+    plain_only = rng.random() < 0.5
     for a in uaxes:
         ax = gs["axes"][a]
-        fp = rng.choice(list(ax["pos"]))
-        tp = rng.choice(list(ax["pos"]))
+        cand = [p for p in ax["pos"] if p not in ("inner", "outer")] if plain_only else list(ax["pos"])
+        fp = rng.choice(cand)
+        tp = rng.choice(cand)
         for _ in range(8):
             l, u = rng.randint(0, 2), rng.randint(0, 2)
             s = (ax["n"] + worlds.POS_LEN[fp] + l + u) - (ax["n"] + worlds.POS_LEN[tp]) + 1
